@@ -7,7 +7,7 @@ from vlib.purity import purity_step, CELL_RULES
 CHECK = Check(
     "C04",
     props_modules=["OW.Props.C04", "OW.Props.C04Nd", "OW.Props.C04NdTables"],
-    families=[Family("W", rtol=1e-9, atol_scale=1e-12, tol_by_model=TOL_BY_MODEL, args=["models=" + ",".join(ALL_MODELS), "n=12"] + EXTRA_ARGS)],
+    families=[Family("W", rtol=1e-9, atol_scale=1e-12, tol_by_model=TOL_BY_MODEL, args=["models=" + ",".join(ALL_MODELS), "n=30"] + EXTRA_ARGS)],
     # regenerated structural facts of every generated Run closure (the C05 extractor): a kernel that shares anything between cells
     # (package-level scratch buffers, caches, shared location vectors, an unjoined goroutine) breaks "N cells = N single-cell runs"
     # only under particular sizes and schedules; the structural rule reports it on every run
